@@ -52,7 +52,9 @@ theorem documented_resolves (env : Env) (n : String) (hn : n ∈ Generated.docum
   | none => simp
   | some b =>
     simp only
-    cases b args <;> simp
+    cases b args with
+    | error e => simp
+    | ok v => by_cases hv : isNoOpinion v = true <;> simp [hv]
 
 /-- `TRUE`, `FALSE` and `NULL` are predefined (Python `True`, `False`, `None`), and nothing else is. -/
 theorem predefined_true_false_null :
